@@ -4,7 +4,8 @@ from vlib import dtwrap
 ID = "C19"
 LEAN_MODULES = ["LhasaV.Props.C19"]
 VH_FEATURES = []
-THEOREMS = {"no_filter_selects_all": "full (structure theorems of render in progress)"}
+THEOREMS = {"no_filter_selects_all": "full", "listing_shape": "full: head ++ rows ++ tail", "row_independent": "full", "totals_exact": "full (true sums below 2^32; mod 2^32 beyond)",
+            "row_lines": "full", "timestamp_recent": "full", "timestamp_old": "full: exact six-month boundary", "selection_spec": "full: wildcard selection = GlobSpec"}
 TRUSTED = ["LhasaV.Model.ListOut.render IS the reference layout (columns, widths, footers transcribed from src/list.c; binary32 ratio arithmetic "
            "and glibc %5.1f rounding modelled with exact integers; gmtime by civil-from-days); validated byte for byte against the real tool",
            "printf, localtime (TZ=UTC) and float hardware are modelled, not verified"]
